@@ -126,6 +126,8 @@ def case_repartition(ctx, inp):
             if k > 1 and split(list(p), k) != [p[a:b] for a, b in zip(cuts[-1], cuts[-1][1:] + [len(p)])]:
                 ctx.disagree("split(seq, n) is not the slices at int(len/n*i)", None, split(list(p), k))
     ctx.eq("repartition partitions", ctx.lean(Sym("repartition"), m, cuts, parts), got)
+    # the model's OWN binary64 cut points (splitCuts: int(len/k*i) via round53) — no Python copy in between
+    ctx.eq("repartition partitions (model cut points)", ctx.lean(Sym("repartitionieee"), m, parts), got)
     if m < n:
         ctx.eq("repartition boundaries", ctx.lean(Sym("boundaries"), n, m)[-1], n)
     if [x for p in got for x in p] != [x for p in parts for x in p]:
@@ -138,6 +140,131 @@ def case_repartition(ctx, inp):
             ctx.branch("fewer:float-boundary-would-differ")
     elif m > n:
         ctx.branch("more")
+        if any(len(p) >= 9 for p in parts):
+            ctx.branch("more:long-partition")
+
+
+def case_split(ctx, inp):
+    """dask.bag.core.split(seq, k) for one length and a range of k: k consecutive slices that concatenate to the
+    sequence, at the cut points the Lean model computes itself (`splitCuts`, exact binary64)."""
+    from dask.bag.core import split
+    L = inp["len"]
+    seq = list(range(L))
+    for k in range(inp["k0"], inp["k1"]):
+        got = split(seq, k)
+        cuts = ctx.lean(Sym("splitcuts"), L, k)
+        want = [seq[a:b] for a, b in zip(cuts, cuts[1:] + [L])]
+        if got != want:
+            ctx.disagree(f"split(range({L}), {k}) vs the slices at the model's cut points", want, got)
+        if [x for p in got for x in p] != seq:
+            ctx.fail(f"split(range({L}), {k}) does not concatenate to the sequence (element lost or duplicated)",
+                     observed=got, expected=seq)
+        if len(got) != k:
+            ctx.fail(f"split(range({L}), {k}) does not return k pieces", observed=len(got))
+        if cuts != [i * L // k for i in range(k)]:
+            ctx.branch("split:float-cut-differs-from-integer-division")
+    if L < inp["k1"] - 1:
+        ctx.branch("split:more-pieces-than-elements")
+    ctx.branch("split")
+
+
+def case_repartsize(ctx, inp):
+    """repartition(partition_size=…): the real _split_partitions / _repartition_from_boundaries arguments
+    (nsplits, boundaries) are recorded and handed to the Lean model; result partitions diffed."""
+    import dask.bag.core as bc
+    parts, size = inp["parts"], inp["size"]
+    b = mk_bag(parts)
+    rec = {}
+    o_split, o_bound = bc._split_partitions, bc._repartition_from_boundaries
+
+    def r_split(bag, nsplits, new_name):
+        rec["nsplits"] = list(nsplits)
+        return o_split(bag, nsplits, new_name)
+
+    def r_bound(bag, boundaries, new_name):
+        boundaries = list(boundaries)
+        rec["bounds"] = list(boundaries)
+        rec["n_in"] = bag.npartitions
+        return o_bound(bag, boundaries, new_name)
+
+    bc._split_partitions, bc._repartition_from_boundaries = r_split, r_bound
+    try:
+        r = b.repartition(partition_size=size)
+    finally:
+        bc._split_partitions, bc._repartition_from_boundaries = o_split, o_bound
+    got = parts_of(r)
+    flat = [x for p in parts for x in p]
+    if [x for p in got for x in p] != flat:
+        ctx.fail("repartition(partition_size) changed the sequence", observed=got, expected=flat)
+    if r.npartitions != len(got):
+        ctx.fail("repartition(partition_size): npartitions attribute differs from the number of partitions",
+                 observed=[r.npartitions, len(got)])
+    nsplits = rec.get("nsplits", [1] * len(parts))
+    bounds = rec["bounds"]
+    chunks = [b_ - a for a, b_ in zip([0] + bounds, bounds)]
+    if sum(chunks) != rec["n_in"] or any(c <= 0 for c in chunks) or sum(nsplits) != rec["n_in"]:
+        ctx.disagree("repartition_size: chunk lengths are not positive numbers adding up to the split partitions",
+                     None, [nsplits, bounds, rec["n_in"]])
+    ctx.eq("repartition(partition_size) partitions", ctx.lean(Sym("repartitionsize"), nsplits, chunks, parts), got)
+    if "nsplits" in rec:
+        ctx.branch("repartsize:split")
+        if any(k >= 9 for k in nsplits):
+            ctx.branch("repartsize:split>=9-ways")
+    if len(chunks) < rec["n_in"]:
+        ctx.branch("repartsize:concat")
+
+
+def case_stats(ctx, inp):
+    """mean / var / std: the exact integer moments (Lean: meanB, varB = (Σx², Σx, n) for every partitioning) put
+    through the final formula as exact fractions vs the floats dask returns; raising iff the model says so."""
+    from fractions import Fraction
+    from dask.bag import chunk
+    parts, ddof = inp["parts"], inp["ddof"]
+    flat = [x for p in parts for x in p]
+    b = mk_bag(parts)
+    for p in parts:       # function level: var_chunk on one partition
+        sq, tot, n = chunk.var_chunk(iter(p))
+        if (sq, tot, n) != (float(sum(x * x for x in p)), float(sum(p)), len(p)):
+            ctx.disagree("var_chunk", [sum(x * x for x in p), sum(p), len(p)], [sq, tot, n])
+
+    def run(f):
+        try:
+            return [Sym("ok"), f()]
+        except Exception as e:      # ZeroDivisionError / ValueError: nothing to average
+            return [Sym("raised"), type(e).__name__]
+
+    m = ctx.lean(Sym("mean"), parts)
+    gm = run(lambda: b.mean().compute(scheduler="sync"))
+    if m[0] != gm[0]:
+        ctx.disagree("Bag.mean returns / raises", m, gm)
+    elif m[0] == "ok":
+        if [m[1], m[2]] != [sum(flat), len(flat)]:
+            ctx.fail("mean: total/count differ from sum(seq)/len(seq)", observed=m)
+        want = Fraction(m[1], m[2])
+        if abs(Fraction(gm[1]) - want) > Fraction(1, 10 ** 9) * (1 + abs(want)):
+            ctx.fail("mean differs from sum(seq)/len(seq)", observed=gm[1], expected=float(want))
+    v = ctx.lean(Sym("var"), ddof, parts)
+    gv = run(lambda: b.var(ddof=ddof).compute(scheduler="sync"))
+    gs = run(lambda: b.std(ddof=ddof).compute(scheduler="sync"))
+    if v[0] != gv[0]:
+        ctx.disagree("Bag.var returns / raises", v, gv)
+    elif v[0] == "ok":
+        x2, x, n = v[1], v[2], v[3]
+        if [x2, x, n] != [sum(y * y for y in flat), sum(flat), len(flat)]:
+            ctx.fail("var: moments differ from those of the sequence", observed=v)
+        want = Fraction(n * x2 - x * x, n * (n - ddof))       # (x2/n - (x/n)^2) * n / (n - ddof)
+        if abs(Fraction(gv[1]) - want) > Fraction(1, 10 ** 8) * (1 + abs(want)):
+            ctx.fail("var differs from the variance of the sequence", observed=gv[1], expected=float(want))
+        if want >= 0:
+            if gs[0] != "ok" or abs(gs[1] - math.sqrt(float(want))) > 1e-7 * (1 + math.sqrt(float(want))):
+                ctx.fail("std differs from sqrt(var)", observed=gs, expected=math.sqrt(float(want)))
+        else:
+            ctx.branch("stats:n<ddof-negative-variance")
+    else:
+        ctx.branch("stats:raises")
+    if any(not p for p in parts) and len(parts) > 1:
+        ctx.branch("empty-partition")
+    ctx.branch("stats")
 
 
 def _reference_fold(flat, op, init):
@@ -235,18 +362,62 @@ def case_reduce(ctx, inp):
     ctx.branch("kind:" + kind)
 
 
-def stages_k(n, max_branch):
-    """(stages, k) exactly as groupby_tasks computes them."""
-    max_branch = max_branch or 32
-    stages = int(math.ceil(math.log(n) / math.log(max_branch))) or 1
-    k = int(math.ceil(n ** (1 / stages))) if stages > 1 else n
+class _StopGraph(Exception):
+    pass
+
+
+def real_stages_k(n, max_branch):
+    """(stages, k, k**stages) as the REAL dask.bag.core.groupby_tasks computes them for a bag of n partitions:
+    the function itself runs up to the first `digit(i, j, k)` of its `inputs` comprehension — the arguments of
+    `range(k**stages)`, `range(stages)` and `digit(…, k)` are recorded, then graph construction is abandoned.
+    (A change of the float formula for stages / k is seen here; a change of the surrounding code makes this raise,
+    which is reported as a broken correspondence.)"""
+    import dask.bag.core as bc
+    rec = []
+
+    class FakeBag:
+        npartitions = n
+
+    def fake_range(*a):
+        rec.append(a)
+        return range(*a)
+
+    def fake_digit(i, j, k):
+        rec.append(("k", k))
+        raise _StopGraph
+
+    old_digit = bc.digit
+    bc.digit, bc.range = fake_digit, fake_range
+    try:
+        bc.groupby_tasks(FakeBag(), None, hash=None, max_branch=max_branch)
+    except _StopGraph:
+        pass
+    finally:
+        bc.digit = old_digit
+        del bc.range
+    (K,), (stages,), (_, k) = rec[0], rec[1], rec[2]
+    return stages, k, K
+
+
+def stages_k_of_graph(g):
+    """(stages, k) read off the graph groupby_tasks built: the digit tuples of the join keys have `stages` entries,
+    every group is split `k` ways."""
+    inps = [key[2] for key in g.dask if isinstance(key, tuple) and str(key[0]).startswith("shuffle-join-") and key[1] == 0]
+    stages = len(inps[0])
+    inp0 = inps[0]
+    k = sum(1 for key in g.dask if isinstance(key, tuple) and str(key[0]).startswith("shuffle-split-")
+            and key[1] == 1 and key[3] == inp0)
+    if len(inps) != g.npartitions or k ** stages != g.npartitions:
+        raise AssertionError(f"groupby_tasks graph: {len(inps)} inputs, npartitions {g.npartitions}, k={k}, stages={stages}")
     return stages, k
 
 
 def case_stagesk(ctx, inp):
-    """The hypothesis of the routing theorems, for the values the real code computes."""
+    """The hypothesis of the routing theorems (npartitions <= k^stages), for the values the REAL function computes."""
     n, mb = inp["n"], inp["mb"]
-    stages, k = stages_k(n, mb)
+    stages, k, K = real_stages_k(n, mb)
+    if K != k ** stages:
+        ctx.disagree("groupby_tasks: number of inputs is not k**stages", k ** stages, K)
     if k ** stages < n:
         ctx.fail("groupby_tasks: k**stages < npartitions — input partitions would be dropped", observed=[n, mb, stages, k])
     if stages > 1:
@@ -272,7 +443,9 @@ def case_groupby_tasks(ctx, inp):
     b = mk_bag(parts)
     g = groupby_tasks(b, lambda x: x % km, hash=lambda key: hs[key], max_branch=mb)
     got = [[[k, list(v)] for k, v in p] for p in parts_of(g)]
-    stages, k = stages_k(len(parts), mb)
+    stages, k = stages_k_of_graph(g)
+    if (stages, k) != real_stages_k(len(parts), mb)[:2]:
+        ctx.disagree("(stages, k) of the graph vs of the function prefix", real_stages_k(len(parts), mb)[:2], [stages, k])
     model = ctx.lean(Sym("groupbytasks"), k, stages, km, hs, parts)
     ctx.eq("groupby_tasks partitions", model, got)
     flat = [x for p in parts for x in p]
@@ -329,7 +502,7 @@ def case_groupby_api(ctx, inp):
         nout = inp.get("nout") or len(parts)
         model = ctx.lean(Sym("groupbydisk"), nout, km, hs, parts)
     else:
-        stages, k = stages_k(len(parts), inp.get("mb"))
+        stages, k = stages_k_of_graph(g)
         model = ctx.lean(Sym("groupbytasks"), k, stages, km, hs, parts)
     canon = lambda ps: [sorted([k, sorted(v)] for k, v in p) for p in ps]
     ctx.eq(f"groupby({method}) placement", canon(model), canon(got))
@@ -578,6 +751,63 @@ def case_api(ctx, inp):
                     want[v % 3].append(v)
                 chk("pipeline → groupby", {k: sorted(v) for k, v in cur.groupby(lambda v: v % 3, shuffle="tasks", max_branch=inp.get("mb"))},
                     {k: sorted(v) for k, v in want.items()})
+        elif op == "foldby_joint":
+            # Bag.foldby's token does not contain split_every: graphs built with different split_every share
+            # their key names. Computing them together (and with the bag itself) must still give every result.
+            import dask
+            want = {}
+            for x in seq:
+                want[key(x)] = want.get(key(x), 0) + num(x)
+            binop = lambda a, x: a + num(x)
+            ses = [2, 3, None, False] if inp.get("se") != 3 else [3, 2, 4, None]
+            fs = [b.foldby(key, binop, 0, operator.add, 0, split_every=s_) for s_ in ses]
+            if len({f.name for f in fs}) == 1:
+                ctx.branch("api:foldby_joint:shared-key-names")
+            got = dask.compute(*fs, b, scheduler="sync")
+            chk("foldby with several split_every computed together", [dict(g) for g in got[:-1]], [want] * len(fs))
+            chk("the bag computed together with its foldbys", list(got[-1]), seq)
+            import dask.bag as db2
+            chk("concat of foldbys with different split_every", sorted(map(repr, db2.concat(fs))),
+                sorted(map(repr, list(want.items()) * len(fs))))
+        elif op == "delayed":
+            # to_delayed / from_delayed round trip (with and without graph optimisation), Item.to_delayed
+            for og in (True, False):
+                ds = b.to_delayed(optimize_graph=og)
+                chk("to_delayed: one Delayed per partition", len(ds), len(parts))
+                chk(f"to_delayed(optimize_graph={og}) partitions", [list(d.compute(scheduler="sync")) for d in ds], parts)
+                back = db.from_delayed(ds)
+                chk("from_delayed(to_delayed(b))", [list(back), back.npartitions], [seq, len(parts)])
+                chk("from_delayed(...).map", list(back.map(num)), [num(x) for x in seq])
+            mapped = b.map(num).map(lambda v: v + 1).filter(lambda v: v % 2 == 0)
+            chk("to_delayed of a lazy chain", [list(d.compute(scheduler="sync")) for d in mapped.to_delayed()],
+                [[num(x) + 1 for x in p if (num(x) + 1) % 2 == 0] for p in parts])
+            import dask
+            one = dask.delayed(lambda: [seq[0]] if seq else [])()
+            chk("from_delayed of a single Delayed", list(db.from_delayed(one)), seq[:1])
+            chk("Item.to_delayed", b.map(num).sum(split_every=se).to_delayed().compute(scheduler="sync"), sum(map(num, seq)))
+            chk("Item.from_delayed", db.Item.from_delayed(dask.delayed(sum)([num(x) for x in seq])).compute(scheduler="sync"),
+                sum(map(num, seq)))
+        elif op == "to_dataframe":
+            import core as _core
+            _core.import_dd()
+            # meta is inferred from the first partition; when that is empty the documented way is to pass meta
+            infer = bool(parts[0])
+            if not infer:
+                ctx.branch("api:to_dataframe:explicit-meta(empty first partition)")
+            if kind == "dict":
+                df = b.to_dataframe() if infer else b.to_dataframe(meta={"name": "object", "v": "int64"})
+                got = df.compute(scheduler="sync")
+                chk("to_dataframe rows", list(zip(got["name"].tolist(), got["v"].tolist())), [(x["name"], x["v"]) for x in seq])
+            elif kind == "tuple":
+                df = b.to_dataframe(columns=["n", "c"]) if infer else b.to_dataframe(meta={"n": "int64", "c": "object"})
+                got = df.compute(scheduler="sync")
+                chk("to_dataframe(columns) rows", list(zip(got["n"].tolist(), got["c"].tolist())), list(seq))
+            else:
+                b1 = b.map(lambda x: (num(x),))
+                df = b1.to_dataframe(columns=["v"]) if infer else b1.to_dataframe(meta={"v": "int64"})
+                chk("to_dataframe(scalars) rows", df.compute(scheduler="sync")["v"].tolist(), [num(x) for x in seq])
+            chk("to_dataframe npartitions", df.npartitions, len(parts))
+            chk("to_dataframe rows per partition", df.map_partitions(len).compute(scheduler="sync").tolist(), [len(p) for p in parts])
         elif op == "reduction":
             chk("reduction(sum, sum)", b.map(num).reduction(sum, sum, split_every=se).compute(), sum(map(num, seq)))
             chk("reduction(list, concat)", b.reduction(list, lambda xs: [y for x in xs for y in x], split_every=se).compute(), seq)
@@ -638,6 +868,8 @@ def case_from_sequence(ctx, inp):
         ctx.fail("from_sequence npartitions attribute differs from the number of partitions", observed=r.npartitions)
     if np_ and n and n <= 100 and len(want) > np_:
         ctx.fail("from_sequence(npartitions=k) produced more than k partitions", observed=len(want))
+    ctx.eq("from_sequence partition size and lengths (fromSequenceSize / fromSequenceB)",
+           ctx.lean(Sym("fromsequence"), n, ps, np_), [Sym("ok"), size, [len(p) for p in got]])
     ctx.branch("from_sequence:" + ("partition_size" if ps else "npartitions" if np_ else "default"))
 
 
@@ -647,7 +879,8 @@ def case_tree(ctx, inp):
     _t(ctx, inp)
 
 
-CASES = {"from_sequence": case_from_sequence, "tree": case_tree, "accumulate": case_accumulate, "take": case_take, "repartition": case_repartition, "reduce": case_reduce,
+CASES = {"split": case_split, "repartsize": case_repartsize, "stats": case_stats,
+         "from_sequence": case_from_sequence, "tree": case_tree, "accumulate": case_accumulate, "take": case_take, "repartition": case_repartition, "reduce": case_reduce,
          "stagesk": case_stagesk, "digits": case_digits, "groupby_tasks": case_groupby_tasks,
          "groupby_api": case_groupby_api, "product_zip": case_product_zip, "api": case_api}
 CASES = {k: _sync(v) for k, v in CASES.items()}
@@ -669,7 +902,7 @@ def gen_parts(rng, maxparts=9, maxlen=5, lo=-4, hi=9):
 
 API_OPS = ["map", "starmap", "filter", "map_partitions", "pluck", "flatten", "distinct", "frequencies", "topk", "stats",
            "foldby", "groupby", "join", "accumulate", "take", "repartition", "from_sequence", "fold_set", "reduction",
-           "multi_consumer", "pipeline", "pipeline", "pipeline"]
+           "multi_consumer", "pipeline", "pipeline", "pipeline", "foldby_joint", "delayed"]
 
 
 def generate(ctx):
@@ -682,6 +915,11 @@ def generate(ctx):
     ndisk = [0]
     for n, m in ((15, 11), (15, 13), (26, 23), (29, 25), (30, 11)):   # int(i*(n/m)) != i*n//m
         yield "repartition", {"parts": [[i] for i in range(n)], "m": m}
+    # the float-sensitive (len, k) pairs of split(): int(len/k*i) + rounding (element 7 of 12 split 9 ways, …)
+    for L, k in ((12, 9), (10, 15), (6, 14), (3, 9), (6, 9)):
+        yield "split", {"len": L, "k0": k, "k1": k + 1}
+        yield "repartition", {"parts": [list(range(L))], "m": k}
+        yield "repartition", {"parts": [[], list(range(L))], "m": 2 * k + 1}
     # API level first
     for _ in range(ctx.n(190, 2500)):
         op = rng.choice(API_OPS)
@@ -696,6 +934,10 @@ def generate(ctx):
             ndisk[0] += 1
             inp["disk"] = ndisk[0] <= (2 if not th else 40)     # the disk shuffle fsyncs per partition: seconds per case
         yield "api", inp
+    for i in range(ctx.n(3, 60)):
+        yield "api", {"op": "to_dataframe", "kind": ["dict", "tuple", "int"][i % 3],
+                      "sizes": [rng.choice([0, 1, 2, 3]) for _ in range(rng.randint(1, 4))] + [1],
+                      "seed": rng.getrandbits(30), "se": None, "k": 0, "m": 1, "mb": None, "nout": None}
     for _ in range(ctx.n(25, 300)):
         parts = gen_parts(rng, lo=0)
         ndisk[0] += 1
@@ -742,6 +984,21 @@ def generate(ctx):
     for _ in range(ctx.n(100, 1500)):
         parts = gen_parts(rng, maxparts=rng.choice([5, 12, 33]), maxlen=7)
         yield "repartition", {"parts": parts, "m": rng.randint(1, 2 * len(parts) + 2)}
+    # split(seq, k): exhaustive small space (function level; one case = one length, all k)
+    lmax, kmax = (200, 60) if th else (120, 60)
+    for L in range(0, lmax + 1):
+        yield "split", {"len": L, "k0": 1, "k1": kmax}
+    for _ in range(ctx.n(60, 800)):    # one long partition split many ways through the public API
+        L = rng.randint(0, 40)
+        pre = [[rng.randint(0, 9) for _ in range(rng.choice([0, 1, 2]))] for _ in range(rng.choice([0, 0, 1, 2]))]
+        parts = pre + [list(range(100, 100 + L))]
+        yield "repartition", {"parts": parts, "m": rng.randint(len(parts) + 1, len(parts) * rng.choice([2, 9, 16, 25]) + 3)}
+    for _ in range(ctx.n(50, 700)):
+        parts = gen_parts(rng, maxparts=rng.choice([2, 5, 9]), maxlen=rng.choice([3, 12, 30]))
+        yield "repartsize", {"parts": parts, "size": rng.choice([60, 100, 150, 250, 400, 1000, 10 ** 6])}
+    for _ in range(ctx.n(80, 1200)):
+        parts = gen_parts(rng, maxparts=rng.choice([1, 3, 9]), maxlen=4, lo=-6, hi=12)
+        yield "stats", {"parts": parts, "ddof": rng.choice([0, 0, 1, 1, 2])}
     kinds = ["fold", "fold", "foldnoinit", "sum", "max", "topk", "freq", "foldby"]
     for _ in range(ctx.n(450, 6000)):
         parts = gen_parts(rng, maxparts=rng.choice([4, 9, 20]), lo=0 if rng.random() < 0.5 else -4)
